@@ -1,0 +1,28 @@
+//go:build verif
+// +build verif
+
+package raft
+
+import (
+	"github.com/ipfs/ipfs-cluster/api"
+	"github.com/ipfs/ipfs-cluster/state"
+
+	peer "github.com/libp2p/go-libp2p-core/peer"
+)
+
+// VerifHook, when set, observes the linearization points of the Raft FSM
+// (only with the "verif" build tag; used by the /verif harness).
+// ev is "Apply": the operation has just been applied to st on peer pid.
+var VerifHook func(ev string, pid peer.ID, st state.State, t LogOpType, pin *api.Pin)
+
+func verifHook(ev string, cc *Consensus, st state.State, t LogOpType, pin *api.Pin) {
+	h := VerifHook
+	if h == nil {
+		return
+	}
+	var pid peer.ID
+	if cc != nil && cc.host != nil {
+		pid = cc.host.ID()
+	}
+	h(ev, pid, st, t, pin)
+}
